@@ -197,7 +197,7 @@ func (buf buffer) codeForUnion(typ *an.Union) (gen.Declaration, []string) {
 	// recurse
 	for _, member := range typ.Members {
 		imp := buf.generate(member, buf.linker.GetOutput(typ.Type()))
-		importMembers = append(importMembers, imp)
+		importMembers = append(importMembers, imp, buf.jsonRoutinesFile(member))
 	}
 
 	name := typeName(typ)
@@ -226,7 +226,7 @@ func (buf buffer) codeForStruct(typ *an.Struct) (gen.Declaration, []string) {
 		} else {
 			// recurse
 			importField := buf.generate(field.Type, buf.linker.GetOutput(typ.Name))
-			importForFields = append(importForFields, importField)
+			importForFields = append(importForFields, importField, buf.jsonRoutinesFile(field.Type))
 
 			tn = typeName(field.Type)
 		}
